@@ -138,7 +138,9 @@ CHECKS = {
         "Single thread: every composition of the frame length as a short-write pattern for frames up to 11 bytes, sampled patterns up to "
         "100 kB. Threads: 2..4 senders / receivers / both on one connection, interleaved at simulated blocking points and at "
         "generated or enumerated line boundaries inside websocket/; the wire must decode into whole frames equal (as a multiset, "
-        "order kept per thread) to what was sent, and every server message must reach exactly one receiver intact.",
+        "order kept per thread) to what was sent, and every server message must reach exactly one receiver intact. A preemption at each of the "
+        "first lines of every function (the preempted thread held back while the others alternate), pong() from several threads, and a "
+        "nested send from inside a partial write (must not land inside the outer frame; blocking for ever is accepted).",
         "Trusted: simkit scheduler (one thread runs at a time; switches at sim primitives and traced line boundaries, not inside C code).",
     ),
     "C13": (
@@ -154,7 +156,8 @@ CHECKS = {
         "Hypothesis-generated endings x traffic x ping settings for one or two consecutive runs in virtual time, with schedule choices and line-level preemptions for close() from a second thread (single-preemption sweeps of fixed scenarios); invariants over the callback trace, return value, sockets and threads",
         "Every way a run can end (15 kinds incl. close() from each callback and from a second thread) is generated with preceding "
         "traffic; run_forever must return, on_close must be the single last callback with the server's (code, reason) or (None, None), "
-        "sockets and ping thread must be gone, app.sock None, and the return value must be True exactly when on_error was called.",
+        "sockets and ping thread must be gone, app.sock None, and the return value must be True exactly when on_error was called. "
+        "close() from a second thread at the start of a run is enumerated over 81 decision prefixes x every line of close(); servers may close their socket right behind the close frame (reset on the client's reply).",
         "Trusted: simkit scheduler and virtual clock; for close() racing with the dispatcher thread the close arguments are not judged and both clean and error outcomes are admitted.",
     ),
     "C16": (
@@ -180,7 +183,8 @@ CHECKS = {
         "About 3100 configurations (cert_reqs x check_hostname x trust source x server_hostname x CA-bundle environment x URL x "
         "direct/proxied x three server certificates) are each run as a real connect() against real TLS/plain/proxy endpoints; the "
         "outcome must equal the reference decision, a rejected peer must never have decrypted an HTTP request, wss streams must be TLS "
-        "from the first byte (also inside a CONNECT tunnel), ws streams must be plain, and the SNI must be the origin / server_hostname.",
+        "from the first byte (also inside a CONNECT tunnel), ws streams must be plain, and the SNI must be the origin / server_hostname. "
+        "Also: a CA bundle rewritten on disk between two connections, and two concurrent connects with different options where one thread is stopped at every line of the TLS set-up while the other connects (line-level scheduler over real TLS).",
         "Trusted: Python ssl / OpenSSL of the image as the TLS peer; fixture PKI under fixtures/tls; system trust store does not contain the test CAs; "
         "wall-clock socket timeouts are reported as inconclusive (exit 2).",
     ),
@@ -215,7 +219,7 @@ def main():
             "guard": "WSCLIENT_VERIF",
             "enable": "no source hooks: the harness replaces module-level names of the imported package from outside "
             "(websocket._http.socket/.ssl, _dispatcher.selectors/.time, _app.time/.threading, _core.time/.threading, "
-            "_abnf.Lock, _http.HAVE_SSL, os.urandom, os.environ; websocket.enableTrace / the 'websocket' logger level for the diagnostics dimension); nothing in /repo reads the guard",
+            "_abnf.Lock, _http.HAVE_SSL, os.urandom, os.environ; websocket.enableTrace / the 'websocket' logger level / the warnings filter for the diagnostics dimension; in the ambient variant workers a meta-path loader compiles websocket/*.py with optimize=1, as python -O does); nothing in /repo reads the guard",
             "baseline_off_cmd": "cd /repo && /venv/bin/python -m pytest -ra -q -p no:cacheprovider --timeout=900 --continue-on-collection-errors",
             "source_commits": [],
             "add_only": True,
